@@ -528,6 +528,14 @@ class Engine(Interp):
             # attribute heaps of opaque objects are realised lazily, so the pre-state heap is "whatever is read first":
             # reads through old() use the initial arrays
             self.opaque_heap_old = "initial"
+            fr.entry_field_ids = {}
+            for paths_ in getattr(c, "frame_when", {}).values():
+                for path_ in paths_:
+                    parts_ = path_.split(".")
+                    o_ = env.get(parts_[0])
+                    for p_ in parts_[1:]:
+                        o_ = o_.fields.get(p_) if isinstance(o_, SObj) else None
+                    fr.entry_field_ids[path_] = (id(o_), o_)
             fr.entry = dict(env)      # parameters in postconditions denote the values passed in (rebinding a
             #                           parameter inside the body does not change what the contract talks about)
             try:
@@ -582,6 +590,17 @@ class Engine(Interp):
             self.ctx.oblige("post", self.spec_eval(src, post_env, old, c.namespace), line, tags=tags or tuple(c.tags),
                             note=src, assume_after=False)
         self.check_frame(c, env, old, line)
+        for cond, paths_ in getattr(c, "frame_when", {}).items():
+            co = self.spec_eval(cond, dict(old), None, c.namespace)
+            for path_ in paths_:
+                parts_ = path_.split(".")
+                o_ = env.get(parts_[0])
+                for p_ in parts_[1:]:
+                    o_ = o_.fields.get(p_) if isinstance(o_, SObj) else None
+                same = id(o_) == self.frame.entry_field_ids.get(path_, (None, None))[0]
+                # not assigned on this path (in-place writes to a non-fresh array are fresh-write obligations that fail)
+                self.ctx.oblige("frame", z3.Implies(co, z3.BoolVal(bool(same))), line, note=f"{path_} is not assigned when {cond}",
+                                assume_after=False)
 
     def check_frame(self, c, env, old, line):
         mods = set(c.modifies)
